@@ -12,18 +12,38 @@
        both packets go through C03's struct-level round trip, the encoded out arguments between in arguments are passed
        over by C04's skip_exact, the frames go through C07's reassembly theorem) for every well-formed schema
        environment, EVERY signature (in and out parameters in any order), every well-typed argument and result value
-       of every IDL type, fresh out variables. Side conditions, all explicit: static size conditions [sig_fine],
-       out arguments within the skipping reader's limits [outs_skippable] (nesting <= the skip depth limit regenerated
-       from the code, containers < 2^30), packets in their Go field ranges and within maxPackageLength. Values are exact
+       of every IDL type, ANY content of the caller's out variables. Side conditions, all explicit: static size conditions [sig_fine],
+       out arguments within the skipping reader's size limits [outs_small] (containers < 2^30), packets in their Go field ranges and within maxPackageLength. Values are exact
        up to [norm] (identity except an optional scalar struct member equal to its default: -0.0 comes back as +0.0).
      - C01_..._partial: the same clauses under the named per-call hypotheses [wire_ok_req], [wire_ok_rsp],
        [args_roundtrip], [results_roundtrip] instead of typing (any values, pre-filled out variables; evaluated on every
        sampled call by the correspondence).
-     - C01_transparent_ok_any_outs_statement (any content of the out variables) is kept visible and NOT proved: at the
-       pinned revision it was refuted by a pre-filled out variable keeping stale content; the generator template and
-       ReadSliceInt8/Uint8 were repaired since (fix commits in the repo history; former known findings
-       e2e/out/prefilled-out-variable/...), and the refuting instance now satisfies it (C01_prefilled_out_witness). The
-       closed theorem C01_transparent_ok still asks for fresh out variables [outs_fresh]. *)
+     - C01_transparent_ok_any_outs: the value clause with EXACT values for ANY content of the caller's out variables
+       (C01_transparent_ok_any_outs_statement, now a theorem). At the pinned revision it was refuted by a pre-filled out
+       variable keeping stale content; the generator template (ResetDefault assigns every member) and
+       ReadSliceInt8/Uint8 (an empty byte vector is assigned) were repaired since, C04_reuse_member made nested structs
+       independent of their target, and Rpc/PriorIndep.v extends this to every required non-array member. None of the
+       closed theorems asks for fresh out variables any more. Remaining side conditions and why:
+         [sig_fine]       static and about types only: every parameter/return type has a finite type graph (no
+                          recursive struct) with by-value struct nesting <= k <= 40 and static depth bound (tneed, which
+                          counts struct members) + k + 5 within the constant 64 of the generated decoders' fuel formula
+                          4*len+64; the number of parameters does not matter (need_fields_bound2). A limit of the
+                          proof's static fuel bound, not of the code: the correspondence samples the recursive type
+                          Node and functions with 22 parameters and the model agrees with the code there;
+         [outs_small]     the request carries the out arguments; the dispatcher passes over those in front of an in
+                          argument with skipField, whose counts are int32 products: strings < 2^31 bytes, containers
+                          < 2^30 elements (more than a packet can carry anyway; not derived from sendability because
+                          omitted defaults are not in the packet). The DEPTH part of skippability (nesting <= the skip
+                          depth limit 512 regenerated from the code) follows from [sig_fine] for finite types
+                          (vdepth_bound, outs_skippable_static); for a recursive type it can fail and then the CODE
+                          fails the call (C01_deep_out_argument_witness; known finding);
+         [no_array_params] fixed-size arrays keep elements beyond the count on the wire; the IDL grammar has array
+                          types for struct members only, never for parameters or return values (parse.go);
+         [canonical_call] only for EXACT values: an optional scalar struct member that equals its default without being
+                          identical to it (-0.0 against +0.0) is not written and comes back as the default - on the
+                          code as well (C01_minus_zero_witness); C01_transparent_ok states the clause up to [norm]
+                          without this condition;
+         typing and sendable packets (Go value ranges, maxPackageLength). *)
 From Coq Require Import List NArith ZArith Bool.
 From TarsV Require Import Gen.Consts Gen.Schemas Base.Hex Codec.GenCodec Codec.RoundTrip Frame.Framing Rpc.ValueWire Rpc.Filters Rpc.FiltersProofs
   Rpc.EndToEnd Rpc.EndToEndProofs Rpc.EndToEndConc Rpc.EndToEndCorr Rpc.EndToEndFull Rpc.EndToEndExamples.
@@ -37,28 +57,49 @@ Definition C01_transparent_ok_any_outs_statement : Prop :=
     fields_of e sid_req = schema_requestf_RequestPacket -> fields_of e sid_rsp = schema_requestf_ResponsePacket ->
     max < 4294967296 ->
     let q := mkreq e f args o false id sv t in
-    find_fn i (fs_name f) = Some f -> sig_fine e k n f -> args_typed e (fs_args f) args -> outs_skippable f args ->
+    find_fn i (fs_name f) = Some f -> sig_fine e k n f -> args_typed e (fs_args f) args -> outs_small f args ->
+    no_array_params f ->
     impl (fs_name f) (ins_of f args) (ctx_of o) (status_of o) = IOk ret outs rc rs -> ret_shape f ret ->
-    results_typed e f (results ret outs) ->
+    results_typed e f (results ret outs) -> canonical_call e f args ret outs ->
     req_sendable e sid_req max q -> rsp_sendable e sid_rsp max (ok_reply e f q ret outs rc rs) ->
     fst (call e sid_req sid_rsp max impl (filters_of inv_res Pc) (filters_of disp_res Ps) i f args o false id sv t)
     = COk ret outs (maps_after o rc rs).
+Theorem C01_transparent_ok_any_outs : C01_transparent_ok_any_outs_statement.
+Proof. exact EndToEndFull.transparent_ok_statement_holds. Qed.
 
-(* the instance that refuted it at the pinned revision (the caller's out variable of type Item holds
+(* the instance that refuted the statement at the pinned revision (the caller's out variable of type Item holds
    nums = [1; -5000000000], the implementation sets nums = []; the caller read the old nums) satisfies all its
    hypotheses and, on the repaired model and code, its conclusion: the caller reads nums = [] *)
 Theorem C01_prefilled_out_witness :
   find_fn [fx_sig] (fs_name fx_sig) = Some fx_sig /\ sig_fine env0 2 4 fx_sig /\ args_typed env0 (fs_args fx_sig) fx_args_prefilled /\
-  outs_skippable fx_sig fx_args_prefilled /\ results_typed env0 fx_sig (results ex_ret fx_outs_empty) /\
+  outs_small fx_sig fx_args_prefilled /\ results_typed env0 fx_sig (results ex_ret fx_outs_empty) /\
   req_sendable env0 SR MAXP fx_qp /\ rsp_sendable env0 SP MAXP (ok_reply env0 fx_sig fx_qp ex_ret fx_outs_empty ex_rc ex_rs) /\
   fst (call env0 SR SP MAXP fx_impl_empty (filters_of inv_res ex_pc) (filters_of disp_res ex_ps) [fx_sig] fx_sig fx_args_prefilled ex_opts false 41 [79; 98; 106] 3000)
   = COk ex_ret fx_outs_empty [ex_rc; ex_rs].
 Proof. exact EndToEndExamples.prefilled_out_witness. Qed.
 
+(* why exact values need [canonical_call]: -0.0 in an optional double member without a declared default reaches the
+   implementation as +0.0 (the encoder compares with ==) *)
+Theorem C01_minus_zero_witness :
+  filter is_obs (snd (call env0 SR SP MAXP nz_impl (filters_of inv_res no_filters) (filters_of disp_res no_filters) [nz_sig] nz_sig nz_args [] false 41 [79] 3000))
+  = [EImpl (fs_name nz_sig) [VStruct [VStr [120]; VInt 7; VFlt 0; VFlt 0]] [] []]
+  /\ ins_seen env0 nz_sig nz_args <> ins_of nz_sig nz_args.
+Proof. exact EndToEndExamples.nz_minus_zero_arrives_as_plus_zero. Qed.
+
+(* why skippable out arguments are needed (for finite types [sig_fine] gives the depth; recursive types are outside) (and what the code does without it): int deep(out Node o, int a) with the caller's o
+   nested 256 structs deep succeeds, with 257 structs (513 nesting levels on the wire, skip limit 512) the call fails
+   before the implementation is reached - on the model and on the code (known finding
+   e2e/spurious-error/prefilled-out-argument-deeper-than-skip-limit) *)
+Theorem C01_deep_out_argument_witness :
+  args_typed env0 (fs_args dp_sig) [dp_chain 256 1; VInt 7] /\
+  dp_call 256 = COk (Some (VInt 5)) [VStruct [VInt 1; VList []]] [] /\ dp_call 257 = CErr 1 sys_msg false.
+Proof. exact (conj EndToEndExamples.dp_257_typed (conj EndToEndExamples.dp_256_structs_pass EndToEndExamples.dp_257_structs_fail)). Qed.
+
 (* success, no codec hypothesis: well-formed schemas (tags ascending, defaults on scalars, by-value nesting <= k), the
    two packet schemas as regenerated from the code, any signature within the static size conditions, out arguments the
    dispatcher can pass over,
-   well-typed arguments and results, fresh out variables, packets in range and within maxPackageLength. The call site
+   well-typed arguments and results, ANY content of the caller's out variables, packets in range and within
+   maxPackageLength. The call site
    gets the implementation's return value and out parameters (normalised), each map the caller passed holds exactly the
    response context/status; the implementation is called exactly once with the caller's in arguments (normalised),
    context and status; each selected filter runs once, in registration order; one reply. *)
@@ -69,7 +110,7 @@ Theorem C01_transparent_ok :
     max < 4294967296 ->
     let q := mkreq e f args o false id sv t in
     find_fn i (fs_name f) = Some f -> sig_fine e k n f ->
-    args_typed e (fs_args f) args -> outs_skippable f args -> outs_fresh e f args ->
+    args_typed e (fs_args f) args -> outs_small f args -> no_array_params f ->
     impl (fs_name f) (ins_seen e f args) (ctx_of o) (status_of o) = IOk ret outs rc rs ->
     results_typed e f (results ret outs) ->
     req_sendable e sid_req max q -> rsp_sendable e sid_rsp max (ok_reply e f q ret outs rc rs) ->
@@ -86,7 +127,7 @@ Theorem C01_transparent_err :
     fields_of e sid_req = schema_requestf_RequestPacket -> fields_of e sid_rsp = schema_requestf_ResponsePacket ->
     max < 4294967296 ->
     let q := mkreq e f args o false id sv t in
-    find_fn i (fs_name f) = Some f -> sig_fine e k n f -> args_typed e (fs_args f) args -> outs_skippable f args ->
+    find_fn i (fs_name f) = Some f -> sig_fine e k n f -> args_typed e (fs_args f) args -> outs_small f args ->
     impl (fs_name f) (ins_seen e f args) (ctx_of o) (status_of o) = IFail c m -> c <> 0%Z ->
     req_sendable e sid_req max q -> rsp_sendable e sid_rsp max (err_reply q c m) ->
     call e sid_req sid_rsp max impl (filters_of inv_res Pc) (filters_of disp_res Ps) i f args o false id sv t =
@@ -102,7 +143,7 @@ Theorem C01_oneway :
     fields_of e sid_req = schema_requestf_RequestPacket -> fields_of e sid_rsp = schema_requestf_ResponsePacket ->
     max < 4294967296 ->
     let q := mkreq e f args o true id sv t in
-    find_fn i (fs_name f) = Some f -> sig_fine e k n f -> args_typed e (fs_args f) args -> outs_skippable f args ->
+    find_fn i (fs_name f) = Some f -> sig_fine e k n f -> args_typed e (fs_args f) args -> outs_small f args ->
     req_sendable e sid_req max q ->
     call e sid_req sid_rsp max impl (filters_of inv_res Pc) (filters_of disp_res Ps) i f args o true id sv t =
     (CSent,
@@ -218,7 +259,10 @@ Theorem C01_concurrent_any_order : forall e k sid_req sid_rsp max impl (Ps : pfi
     forall q, In q qs -> client_conn e sid_rsp max chunks_p (q_id q) = srv_reply e impl i q.
 Proof. intros e k sid_req sid_rsp max impl Ps i qs sent cq written cp Hwf Hk Hq Hp Hm. exact (EndToEndFull.concurrent_closed e k Hwf Hk sid_req sid_rsp Hq Hp max Hm impl Ps i qs sent cq written cp). Qed.
 
+Print Assumptions C01_transparent_ok_any_outs.
 Print Assumptions C01_prefilled_out_witness.
+Print Assumptions C01_minus_zero_witness.
+Print Assumptions C01_deep_out_argument_witness.
 Print Assumptions C01_transparent_ok.
 Print Assumptions C01_transparent_err.
 Print Assumptions C01_oneway.
